@@ -28,16 +28,19 @@
         [C09_reference_tie_refuted] (finding C09-F1),
         [C09_cardinality_tie_refuted] (finding C09-F2).
 
-    Not covered: runs with an instance cap (the capped tracker keeps the first
-    [cap] instances per class in document order: genuinely order-dependent);
-    [remove_empty = true] (key sets then also depend on which shapes are
-    deleted; soundness is [C02_keys_remove_e2e]); invariance of the chosen
-    constraints under [no_tie] (DESIGN.md section 7, C09 (b)); blank-node
-    relabelling ([C09_rename_counts] is NOT stated: class keys can be blank
-    nodes, shape labels are computed from identifiers, and QUIRK Q3 of
-    Spec/Counts.v compares identifiers with the strings "IRI"/"BNode", so a
-    renaming commutes with the counts only under side conditions that need
-    their own development). *)
+    (c') [C09_keys_permutation_invariant_valid]: (c) with no hypothesis on the
+        outcomes under [valid_input]; [C09_keys_permutation_invariant_any]:
+        (c) for any setting of remove_empty_shapes (binary64, thresholds <= 1).
+    (e) blank-node relabelling: [C09_track_rename], [C09_rename_counts],
+        [C09_profile_rename_invariant], [C09_keys_rename_invariant] under the
+        side conditions [rename_dom] (identifiers marked, no blank-node class);
+        [C09_rename_bnode_class_refuted] shows the second one is needed.
+
+    Not covered: runs with an instance cap under permutation (the capped
+    tracker keeps the first [cap] instances per class in document order:
+    genuinely order-dependent); [remove_empty = true] for thresholds > 1;
+    invariance of the chosen constraints under [no_tie] (DESIGN.md section 7,
+    C09 (b)); relabelling of graphs with blank-node classes. *)
 From Coq Require Import List Ascii String ZArith NArith Bool Permutation.
 From Shexer Require Import Lib.PyStr Lib.Dict Lib.Bin64 Gen.Consts Spec.Rdf Model.Tracker Model.Profiler Model.Tokens
   Model.Freq Model.FreqInst Model.Shexing Model.Run Spec.Counts Proofs.DictLemmas Proofs.ProfileChar
@@ -198,3 +201,334 @@ Lemma C09_cardinality_tie_refuted :
   option_map (map s_card) (stmts_of (with_kls false base_rcfg) thr0 g_cardtie_1 (ex "C")) = Some [CExact 1; COpt] /\
   option_map (map s_card) (stmts_of (with_kls false base_rcfg) thr0 g_cardtie_2 (ex "C")) = Some [CExact 1; CStar].
 Proof. split; [exact C09_cardtie_is_permutation|]. split; vm_compute; reflexivity. Qed.
+
+(** ** (e) blank-node renaming  (supersedes the "not covered" remark of the
+    header; proofs in Proofs/EndToEnd3.v)
+
+    [sg] renames blank-node LABELS: it maps strings that start with "_:" to
+    strings that start with "_:", injectively ([bn_renaming]).  It acts on a
+    graph through [rename_graph] (blank nodes relabelled, IRIs and literals
+    fixed) and on an instance dictionary through [rename_insts] (keys that
+    are blank-node labels relabelled; class lists untouched).
+
+    Side conditions, triple by triple ([rename_dom tau g]):
+    - [marked_triple]: blank-node identifiers start with "_:" and IRI
+      identifiers do not.  True of every yielder-produced graph; needed
+      because the dictionaries are keyed by the bare identifier string (QUIRK
+      Q5), so an IRI spelled "_:x" and the blank node _:x are the same
+      instance before the renaming and two instances after it.  It also
+      keeps renamed identifiers away from the strings "IRI"/"BNode" of
+      QUIRK Q3;
+    - [class_obj_ok]: the object of a typing triple is not a blank node.
+      Really needed: a blank-node CLASS is a class key and its shape label is
+      computed from the label text ([C09_rename_bnode_class_refuted]).
+
+    What moves with the nodes: the type keys under the instantiation property
+    are node identifiers (the class IRI for outgoing links, the typed SUBJECT
+    for incoming ones), [rk sg tau p k] renames them; every other type key
+    (node kind, datatype, shape label) is fixed. *)
+From Shexer Require Import Proofs.EndToEnd2 Proofs.EndToEnd3.
+
+Theorem C09_bn_renaming_unfold : forall sg,
+  bn_renaming sg <->
+  (forall s, prefixb (Str "_:") s = true -> prefixb (Str "_:") (sg s) = true) /\
+  (forall a b, prefixb (Str "_:") a = true -> prefixb (Str "_:") b = true -> sg a = sg b -> a = b).
+Proof. intros sg. split; [intros [A B]; split; assumption | intros [A B]; constructor; assumption]. Qed.
+
+Theorem C09_rename_unfold : forall sg,
+  (forall n, rename_node sg n = match nk n with KBnode => Node KBnode (sg (nid n)) | KIri => n end) /\
+  (forall t, rename_triple sg t =
+             T (rename_node sg (ts t)) (tp t)
+               (match to t with ON n => ON (rename_node sg n) | OL c d => OL c d end)) /\
+  (forall g, rename_graph sg g = map (rename_triple sg) g) /\
+  (forall s, rid sg s = if prefixb (Str "_:") s then sg s else s) /\
+  (forall I : insts, rename_insts sg I = map (fun ie => (rid sg (fst ie), snd ie)) I) /\
+  (forall tau p k, rk sg tau p k = if str_eqb p tau then rid sg k else k).
+Proof. intros sg. repeat split; intros; reflexivity. Qed.
+
+Theorem C09_rename_dom_unfold : forall tau g,
+  rename_dom tau g = true <->
+  forall t, In t g ->
+    marked_node (ts t) = true /\
+    (forall o, to t = ON o -> marked_node o = true /\ (tp t = tau -> nk o = KIri)).
+Proof. exact rename_dom_unfold. Qed.
+
+(** the tracker commutes with the renaming (with or without cap, failures included) *)
+Theorem C09_track_rename : forall sg tau m cap g,
+  bn_renaming sg -> rename_dom tau g = true ->
+  track tau m cap (rename_graph sg g) =
+  match track tau m cap g with inl J => inl (rename_insts sg J) | inr e => inr e end.
+Proof. intros sg tau m cap g Hsg Hg. exact (track_rename sg Hsg tau m cap g Hg). Qed.
+Print Assumptions C09_track_rename.
+
+(** the declarative counts are invariant, for ANY instance dictionary *)
+Theorem C09_rename_counts : forall sg dir tau (I : insts) g,
+  bn_renaming sg -> rename_dom tau g = true ->
+  (forall i p k, cnt dir tau (rename_insts sg I) (rename_graph sg g) (rid sg i) p (rk sg tau p k) =
+                 cnt dir tau I g i p k) /\
+  (forall c p k card, occ dir tau (rename_insts sg I) (rename_graph sg g) c p (rk sg tau p k) card =
+                      occ dir tau I g c p k card) /\
+  (forall c, class_count (rename_insts sg I) c = class_count I c) /\
+  (* no other key appears *)
+  (forall c p k' card, (0 < occ dir tau (rename_insts sg I) (rename_graph sg g) c p k' card)%N ->
+                       exists k, k' = rk sg tau p k).
+Proof.
+  intros sg dir tau I g Hsg Hg. split; [|split; [|split]].
+  - intros. apply cnt_rename; assumption.
+  - intros. apply occ_rename; assumption.
+  - intros. apply class_count_rename.
+  - intros c p k' card. apply occ_rename_pos_inv; assumption.
+Qed.
+Print Assumptions C09_rename_counts.
+
+(** in particular for every type key outside the instantiation property
+    (node kinds, datatypes, shape labels) nothing is renamed at all *)
+Corollary C09_rename_counts_plain : forall sg dir tau (I : insts) g c p k card,
+  bn_renaming sg -> rename_dom tau g = true -> p <> tau ->
+  occ dir tau (rename_insts sg I) (rename_graph sg g) c p k card = occ dir tau I g c p k card.
+Proof.
+  intros sg dir tau I g c p k card Hsg Hg Hp.
+  rewrite <- (occ_rename sg Hsg dir tau I g c p k card Hg). unfold rk.
+  apply str_eqb_neq in Hp. rewrite Hp. reflexivity.
+Qed.
+Print Assumptions C09_rename_counts_plain.
+
+(** the class profile (profile-level cleaning off): the profiler succeeds on
+    the renamed input, with the same class keys in the same order, the same
+    class counts and the same number under every lookup *)
+Theorem C09_profile_rename_invariant : forall sg cfg (I : insts) g P C ID,
+  bn_renaming sg -> NoDup (dkeys I) -> rename_dom (p_tau cfg) g = true -> p_remove_empty cfg = false ->
+  profile cfg I g = inl (P, C, ID) ->
+  exists P' ID',
+    profile cfg (rename_insts sg I) (rename_graph sg g) = inl (P', C, ID') /\
+    dkeys P' = dkeys P /\
+    forall c e, dget P c = Some e ->
+      exists e', dget P' c = Some e' /\
+        forall p k card,
+          plook (c_direct e') p (rk sg (p_tau cfg) p k) card = plook (c_direct e) p k card /\
+          plook (c_inverse e') p (rk sg (p_tau cfg) p k) card = plook (c_inverse e) p k card.
+Proof. intros sg cfg I g P C ID Hsg. exact (profile_rename sg Hsg cfg I g P C ID). Qed.
+Print Assumptions C09_profile_rename_invariant.
+
+(** the keys of the shapes ([r_remove_empty = false], any cap): two successful
+    runs have the same shapes prefix, the same shape classes IN THE SAME ORDER
+    and, class by class, the same name, header count and keys -- the value
+    class of a key of the instantiation property renamed by [rvc] *)
+Theorem C09_keys_rename_invariant : forall fa sg c (thr : F fa) g ns shapes ns' shapes',
+  bn_renaming sg -> rename_dom (r_tau c) g = true -> r_remove_empty c = false ->
+  run_shapes fa c thr g = inl (ns, shapes) -> run_shapes fa c thr (rename_graph sg g) = inl (ns', shapes') ->
+  ns' = ns /\
+  map sh_class shapes' = map sh_class shapes /\
+  forall sh sh', In sh shapes -> In sh' shapes' -> sh_class sh = sh_class sh' ->
+    sh_name sh = sh_name sh' /\ sh_n sh = sh_n sh' /\
+    (forall inv p vc, In (inv, p, vc) (map (skey (scfg_of c ns)) (sh_stmts sh)) <->
+                      In (inv, p, rvc sg (r_tau c) p vc) (map (skey (scfg_of c ns)) (sh_stmts sh'))) /\
+    (forall inv p vc', In (inv, p, vc') (map (skey (scfg_of c ns)) (sh_stmts sh')) ->
+                       exists vc, vc' = rvc sg (r_tau c) p vc).
+Proof. exact e2e_keys_rename. Qed.
+Print Assumptions C09_keys_rename_invariant.
+
+Theorem C09_rvc_unfold : forall sg tau p vc,
+  rvc sg tau p vc = if str_eqb p tau then match vc with VClass k => VClass (rid sg k) | _ => vc end else vc.
+Proof. reflexivity. Qed.
+
+(** without inverse paths no key names a blank node: the key SETS are equal *)
+Theorem C09_keys_rename_invariant_direct : forall fa sg c (thr : F fa) g ns shapes ns' shapes',
+  bn_renaming sg -> rename_dom (r_tau c) g = true -> r_remove_empty c = false -> r_inverse c = false ->
+  run_shapes fa c thr g = inl (ns, shapes) -> run_shapes fa c thr (rename_graph sg g) = inl (ns', shapes') ->
+  ns' = ns /\
+  map sh_class shapes' = map sh_class shapes /\
+  forall sh sh', In sh shapes -> In sh' shapes' -> sh_class sh = sh_class sh' ->
+    sh_name sh = sh_name sh' /\ sh_n sh = sh_n sh' /\
+    forall key, In key (map (skey (scfg_of c ns)) (sh_stmts sh)) <->
+                In key (map (skey (scfg_of c ns)) (sh_stmts sh')).
+Proof. exact e2e_keys_rename_direct. Qed.
+Print Assumptions C09_keys_rename_invariant_direct.
+
+(** non-vacuity: append "1" to every blank-node label *)
+Definition sg1 (s : str) : str := s ++ Str "1".
+
+Example C09_sg1_is_renaming : bn_renaming sg1.
+Proof.
+  constructor.
+  - intros s H. unfold bn_pref in *. apply prefixb_spec in H. destruct H as [r ->].
+    unfold sg1. rewrite <- app_assoc. apply prefixb_spec. eexists. reflexivity.
+  - intros a b _ _ H. unfold sg1 in H. apply app_inv_tail in H. exact H.
+Qed.
+
+(** a : C . _:x : C . _:x rdf:type a (so [a] is a class too, with a blank-node
+    instance: an incoming typing link from a blank node) . a p _:x . _:x p a *)
+Definition g_ren : graph :=
+  [ty "a" "C"; T (bn "x") tau (ON (iri "C")); T (bn "x") tau (ON (iri "a"));
+   lnk "a" "p" (bn "x"); T (bn "x") (ex "p") (ON (iri "a"))].
+
+Example C09_rename_nonvacuous :
+  rename_dom tau g_ren = true /\
+  rename_graph sg1 g_ren =
+    [ty "a" "C"; T (bn "x1") tau (ON (iri "C")); T (bn "x1") tau (ON (iri "a"));
+     lnk "a" "p" (bn "x1"); T (bn "x1") (ex "p") (ON (iri "a"))] /\
+  track tau TAll (-1) g_ren = inl [(ex "a", [ex "C"]); (Str "_:x", [ex "C"; ex "a"])] /\
+  track tau TAll (-1) (rename_graph sg1 g_ren) = inl [(ex "a", [ex "C"]); (Str "_:x1", [ex "C"; ex "a"])] /\
+  keys_of_run BAlg (rwith_inverse true (with_remove_empty false base_rcfg)) thr0 g_ren =
+    Some [ (ex "C", 2%N, [(false, tau, VClass (ex "C")); (false, ex "p", VNonLit); (true, ex "p", VNonLit);
+                          (false, tau, VClass (ex "a")); (true, tau, VClass (Str "_:x"))]);
+           (ex "a", 1%N, [(false, tau, VClass (ex "C")); (false, tau, VClass (ex "a")); (false, ex "p", VNonLit);
+                          (true, ex "p", VNonLit)]) ] /\
+  keys_of_run BAlg (rwith_inverse true (with_remove_empty false base_rcfg)) thr0 (rename_graph sg1 g_ren) =
+    Some [ (ex "C", 2%N, [(false, tau, VClass (ex "C")); (false, ex "p", VNonLit); (true, ex "p", VNonLit);
+                          (false, tau, VClass (ex "a")); (true, tau, VClass (Str "_:x1"))]);
+           (ex "a", 1%N, [(false, tau, VClass (ex "C")); (false, tau, VClass (ex "a")); (false, ex "p", VNonLit);
+                          (true, ex "p", VNonLit)]) ].
+Proof. repeat split; vm_compute; reflexivity. Qed.
+
+(** the side condition on classes is needed: [a rdf:type _:c].  The class key
+    IS the blank-node label, so the tracker's dictionary of the renamed graph
+    lists another class, the old class has no instance any more, and the
+    shape gets another label *)
+Definition g_bnclass : graph := [T (iri "a") tau (ON (bn "c"))].
+
+Lemma C09_rename_bnode_class_refuted :
+  bn_renaming sg1 /\ rename_dom tau g_bnclass = false /\
+  track tau TAll (-1) g_bnclass = inl [(ex "a", [Str "_:c"])] /\
+  track tau TAll (-1) (rename_graph sg1 g_bnclass) = inl [(ex "a", [Str "_:c1"])] /\
+  rename_insts sg1 [(ex "a", [Str "_:c"])] = [(ex "a", [Str "_:c"])] /\
+  class_count [(ex "a", [Str "_:c"])] (Str "_:c") = 1%N /\
+  class_count [(ex "a", [Str "_:c1"])] (Str "_:c") = 0%N /\
+  option_map (map (fun x => fst (fst x))) (keys_of_run BAlg base_rcfg thr0 g_bnclass) = Some [Str "_:c"] /\
+  option_map (map (fun x => fst (fst x))) (keys_of_run BAlg base_rcfg thr0 (rename_graph sg1 g_bnclass)) = Some [Str "_:c1"] /\
+  shape_name c_SHAPES_DEFAULT_NAMESPACE (Str "_:c") <> shape_name c_SHAPES_DEFAULT_NAMESPACE (Str "_:c1").
+Proof.
+  split; [exact C09_sg1_is_renaming|]. repeat split; try (vm_compute; reflexivity). vm_compute. discriminate.
+Qed.
+
+(** ** (c'), complements to (c)
+
+    (i) under [valid_input] (the domain of C04, Props/C04.v) both runs
+    succeed: [C09_keys_permutation_invariant] with no hypothesis on either
+    outcome; (ii) ANY setting of remove_empty_shapes, for binary64, thresholds
+    <= 1, no class IRI starting with '%'/"@" ([class_iris_ok]) and fewer than
+    2^53 triples: there the shape-level cleaning removes nothing (C14's
+    no-empty-shape lemmas) and the profile-level cleaning is declarative
+    ([C09_raw_keys_iff_occ]: a class key is kept iff it is an original label
+    or the class has a positive count; a key passes iff some (type key,
+    cardinality) of its value class has a positive count that reaches the
+    threshold AND the type key is not a removed class key), hence invariant. *)
+From Shexer Require Import Proofs.Bin64Round Proofs.FreqLaws.
+
+Theorem C09_keys_permutation_invariant_valid : forall fa c (thr : F fa) (g g' : graph),
+  (r_cap c <= 0)%Z -> r_remove_empty c = false -> Permutation g g' -> valid_input c g = true ->
+  exists ns shapes shapes',
+    run_shapes fa c thr g = inl (ns, shapes) /\ run_shapes fa c thr g' = inl (ns, shapes') /\
+    (forall cls, In cls (map sh_class shapes) <-> In cls (map sh_class shapes')) /\
+    forall sh sh', In sh shapes -> In sh' shapes' -> sh_class sh = sh_class sh' ->
+      sh_name sh = sh_name sh' /\ sh_n sh = sh_n sh' /\
+      forall key, In key (map (skey (scfg_of c ns)) (sh_stmts sh)) <->
+                  In key (map (skey (scfg_of c ns)) (sh_stmts sh')).
+Proof. exact e2e_keys_perm_valid. Qed.
+Print Assumptions C09_keys_permutation_invariant_valid.
+
+Theorem C09_keys_permutation_invariant_total : forall fa c (thr : F fa) (g g' : graph) ns shapes,
+  (r_cap c <= 0)%Z -> r_remove_empty c = false -> Permutation g g' -> valid_input c g = true ->
+  run_shapes fa c thr g = inl (ns, shapes) ->
+  exists shapes',
+    run_shapes fa c thr g' = inl (ns, shapes') /\
+    (forall cls, In cls (map sh_class shapes) <-> In cls (map sh_class shapes')) /\
+    forall sh sh', In sh shapes -> In sh' shapes' -> sh_class sh = sh_class sh' ->
+      sh_name sh = sh_name sh' /\ sh_n sh = sh_n sh' /\
+      forall key, In key (map (skey (scfg_of c ns)) (sh_stmts sh)) <->
+                  In key (map (skey (scfg_of c ns)) (sh_stmts sh')).
+Proof. exact e2e_keys_perm_total. Qed.
+Print Assumptions C09_keys_permutation_invariant_total.
+
+(** C02 for the shapes before the shape-level cleaning ([run_raw],
+    Proofs/EndToEnd2.v), whatever remove_empty_shapes: soundness and
+    completeness *)
+Theorem C09_raw_keys_iff_occ : forall fa c (thr : F fa) g ns shapes,
+  run_raw fa c thr g = inl (ns, shapes) ->
+  exists I P C ID,
+    track (r_tau c) (mode_of c) (r_cap c) g = inl I /\
+    profile (pcfg_of c) I g = inl (P, C, ID) /\
+    map sh_class shapes = dkeys P /\
+    forall sh, In sh shapes ->
+      sh_name sh = shape_name (r_shapes_ns c) (sh_class sh) /\
+      sh_n sh = class_count I (sh_class sh) /\
+      forall inv p vc,
+        In (inv, p, vc) (map (skey (scfg_of c ns)) (sh_stmts sh)) <->
+        key_passes_occ_kept fa c thr I g
+          (fun k => In k (class_keys (targets_of (pcfg_of c)) I) -> In k (dkeys P)) (sh_class sh) inv p vc.
+Proof. exact run_raw_keys_iff_occ. Qed.
+Print Assumptions C09_raw_keys_iff_occ.
+
+(** which class keys the profile-level cleaning keeps *)
+Theorem C09_kept_class_keys : forall cfg (I : insts) G P C ID,
+  NoDup (dkeys I) -> profile cfg I G = inl (P, C, ID) ->
+  forall c, In c (dkeys P) <->
+            In c (class_keys (targets_of cfg) I) /\
+            (p_remove_empty cfg = false \/ In c (orig_labels cfg) \/
+             exists dir p k card, (dir = Inverse -> p_inverse cfg = true) /\
+                                  (0 < occ dir (p_tau cfg) I G c p k card)%N).
+Proof. intros cfg I G P C ID Hn HP. exact (proj1 (profile_kept_char cfg I G P C ID Hn HP)). Qed.
+Print Assumptions C09_kept_class_keys.
+
+(** raw shapes: invariant for any options and any threshold *)
+Theorem C09_raw_keys_permutation_invariant : forall fa c (thr : F fa) (g g' : graph) ns shapes ns' shapes',
+  (r_cap c <= 0)%Z -> Permutation g g' ->
+  run_raw fa c thr g = inl (ns, shapes) -> run_raw fa c thr g' = inl (ns', shapes') ->
+  ns' = ns /\
+  (forall cls, In cls (map sh_class shapes) <-> In cls (map sh_class shapes')) /\
+  forall sh sh', In sh shapes -> In sh' shapes' -> sh_class sh = sh_class sh' ->
+    sh_name sh = sh_name sh' /\ sh_n sh = sh_n sh' /\
+    forall key, In key (map (skey (scfg_of c ns)) (sh_stmts sh)) <->
+                In key (map (skey (scfg_of c ns)) (sh_stmts sh')).
+Proof. exact run_raw_keys_perm. Qed.
+Print Assumptions C09_raw_keys_permutation_invariant.
+
+(** (ii) final shapes, remove_empty_shapes on or off *)
+Theorem C09_keys_permutation_invariant_any : forall c thr (g g' : graph) ns shapes ns' shapes',
+  (r_cap c <= 0)%Z -> Permutation g g' ->
+  class_iris_ok c g = true -> wf_frac thr -> fle BAlg thr (fone BAlg) = true ->
+  (N.of_nat (List.length g) < 2 ^ 53)%N ->
+  run_shapes BAlg c thr g = inl (ns, shapes) -> run_shapes BAlg c thr g' = inl (ns', shapes') ->
+  ns' = ns /\
+  (forall cls, In cls (map sh_class shapes) <-> In cls (map sh_class shapes')) /\
+  forall sh sh', In sh shapes -> In sh' shapes' -> sh_class sh = sh_class sh' ->
+    sh_name sh = sh_name sh' /\ sh_n sh = sh_n sh' /\
+    forall key, In key (map (skey (scfg_of c ns)) (sh_stmts sh)) <->
+                In key (map (skey (scfg_of c ns)) (sh_stmts sh')).
+Proof. exact e2e_keys_perm_any. Qed.
+Print Assumptions C09_keys_permutation_invariant_any.
+
+(** ... and with no hypothesis on the outcomes *)
+Theorem C09_keys_permutation_invariant_valid_any : forall c thr (g g' : graph),
+  (r_cap c <= 0)%Z -> Permutation g g' ->
+  typing_okb (r_tau c) g && forallb (sentinel_free (r_tau c)) g && prefix_free c && class_iris_ok c g = true ->
+  wf_frac thr -> fle BAlg thr (fone BAlg) = true -> (N.of_nat (List.length g) < 2 ^ 53)%N ->
+  exists ns shapes shapes',
+    run_shapes BAlg c thr g = inl (ns, shapes) /\ run_shapes BAlg c thr g' = inl (ns, shapes') /\
+    (forall cls, In cls (map sh_class shapes) <-> In cls (map sh_class shapes')) /\
+    forall sh sh', In sh shapes -> In sh' shapes' -> sh_class sh = sh_class sh' ->
+      sh_name sh = sh_name sh' /\ sh_n sh = sh_n sh' /\
+      forall key, In key (map (skey (scfg_of c ns)) (sh_stmts sh)) <->
+                  In key (map (skey (scfg_of c ns)) (sh_stmts sh')).
+Proof. exact e2e_keys_perm_valid_any. Qed.
+Print Assumptions C09_keys_permutation_invariant_valid_any.
+
+(** non-vacuity: the default configuration (remove_empty_shapes ON) and the
+    two orders of the reference-tie graph satisfy every hypothesis *)
+Example C09_any_nonvacuous :
+  r_remove_empty base_rcfg = true /\ (r_cap base_rcfg <= 0)%Z /\
+  valid_input_le1 base_rcfg g_reftie_1 = true /\ valid_input (with_remove_empty false base_rcfg) g_reftie_1 = true /\
+  wf_frac thr0 /\ fle BAlg thr0 (fone BAlg) = true /\ (N.of_nat (List.length g_reftie_1) < 2 ^ 53)%N /\
+  keys_of_run BAlg base_rcfg thr0 g_reftie_1 =
+    Some [ (ex "C", 1%N, [(false, tau, VClass (ex "C")); (false, ex "p", VNonLit)]);
+           (ex "C1", 1%N, [(false, tau, VClass (ex "C1")); (false, tau, VClass (ex "C2"))]);
+           (ex "C2", 1%N, [(false, tau, VClass (ex "C1")); (false, tau, VClass (ex "C2"))]) ] /\
+  keys_of_run BAlg base_rcfg thr0 g_reftie_2 =
+    Some [ (ex "C", 1%N, [(false, tau, VClass (ex "C")); (false, ex "p", VNonLit)]);
+           (ex "C2", 1%N, [(false, tau, VClass (ex "C2")); (false, tau, VClass (ex "C1"))]);
+           (ex "C1", 1%N, [(false, tau, VClass (ex "C2")); (false, tau, VClass (ex "C1"))]) ].
+Proof.
+  split; [reflexivity|]. split; [intros H; discriminate H|]. split; [vm_compute; reflexivity|].
+  split; [vm_compute; reflexivity|]. split; [vm_compute; split; [discriminate | reflexivity]|].
+  split; [vm_compute; reflexivity|]. split; [vm_compute; reflexivity|]. split; vm_compute; reflexivity.
+Qed.
